@@ -40,6 +40,17 @@ def generate(seed, tier):
         for t in rnd.sample(otus, min(len(otus), 2 if quick else 4)):
             cs = t.cases if len(t.cases) <= (6 if quick else 24) else rnd.sample(t.cases, 6 if quick else 24)
             tus.append(TU('u_' + t.name, cs, headers=t.headers, weight=1, pre=t.pre))
+    # macro-targeted corpus: a tuning macro only changes the code of a few operation families, so the configurations that set it get extra
+    # translation units of exactly those families (built under the macro configuration(s) and two macro-free reference configurations only)
+    targeted = {'VECTORISED': ['c04', 'c05', 'c18', 'c19'], 'USE_HADD': ['c16', 'c01'], 'MATMUL': ['c01', 'c17'], 'TRANS': ['c14']}
+    for tag, mods in sorted(targeted.items()):
+        for name in mods:
+            mod = importlib.import_module('vp.props.' + name)
+            otus, _ = mod.generate(seed, 'quick')
+            otus = [t for t in otus if t.weight == 1]
+            for t in rnd.sample(otus, min(len(otus), 3 if quick else 6)):
+                cs = t.cases if len(t.cases) <= (8 if quick else 24) else rnd.sample(t.cases, 8 if quick else 24)
+                tus.append(TU('m_%s_%s' % (tag, t.name), cs, headers=t.headers, weight=1, pre=t.pre, only_cfgs=('*%s*' % tag, 'gcc.sse2.14.O2+ffp*', 'gcc.avx2.14.O1+ffp*', 'gcc.avx512.14.O3+ffp*', 'gcc.avx2.14.O2+ffp*', 'gcc.avx512.14.O2+ffp*')))
     isas = ['scalar', 'sse2', 'sse42', 'avx', 'avx2', 'avx512', 'avx512f']
     cfgs = []
     if quick:
@@ -54,8 +65,8 @@ def generate(seed, tier):
             cfgs.append(Cfg('avx2', '14', 'O2', macros=(m,), extra=OFF))
         cfgs.append(Cfg('sse2', '14', 'O2', macros=('FASTOR_USE_HADD',), extra=OFF))
         for m in ('FASTOR_MATMUL_OUTER_BLOCK_SIZE=2', 'FASTOR_MATMUL_INNER_BLOCK_SIZE=3', 'FASTOR_MATMUL_INNER_BLOCK_SIZE=5'):
-            cfgs.append(Cfg('avx512' if '5' not in m else 'sse2', '14', 'O2', macros=(m,), extra=OFF, only_tus='u_c01*'))
-        cfgs.append(Cfg('avx2', '14', 'O2', macros=('FASTOR_TRANS_OUTER_BLOCK_SIZE=2', 'FASTOR_TRANS_INNER_BLOCK_SIZE=2'), extra=OFF, only_tus='u_c14*'))
+            cfgs.append(Cfg('avx512' if '5' not in m else 'sse2', '14', 'O2', macros=(m,), extra=OFF, only_tus=('u_c01*', 'm_MATMUL_*')))
+        cfgs.append(Cfg('avx2', '14', 'O2', macros=('FASTOR_TRANS_OUTER_BLOCK_SIZE=2', 'FASTOR_TRANS_INNER_BLOCK_SIZE=2'), extra=OFF, only_tus=('u_c14*', 'm_TRANS_*')))
         cfgs.append(Cfg('avx2', '14', 'O2', macros=('FASTOR_DONT_PERFORM_OP_MIN',), extra=OFF, only_tus='u_c16*'))
     else:
         for isa in isas:
@@ -67,7 +78,7 @@ def generate(seed, tier):
                   'FASTOR_MATMUL_INNER_BLOCK_SIZE=1', 'FASTOR_MATMUL_INNER_BLOCK_SIZE=3', 'FASTOR_MATMUL_INNER_BLOCK_SIZE=5', 'FASTOR_TRANS_OUTER_BLOCK_SIZE=2', 'FASTOR_TRANS_INNER_BLOCK_SIZE=2']
         for m in macros:
             for isa in ('sse2', 'avx2', 'avx512'):
-                cfgs.append(Cfg(isa, '14', 'O2', macros=(m,), extra=OFF, only_tus=('u_c16*' if m == 'FASTOR_DONT_PERFORM_OP_MIN' else ('u_c14*' if 'TRANS' in m else None))))
+                cfgs.append(Cfg(isa, '14', 'O2', macros=(m,), extra=OFF, only_tus=('u_c16*' if m == 'FASTOR_DONT_PERFORM_OP_MIN' else (('u_c14*', 'm_TRANS_*') if 'TRANS' in m else None))))
         for isa in ('sse2', 'avx2', 'avx512'):
             cfgs.append(Cfg(isa, '17', 'O2', cxx='clang++', extra=OFF))
     return tus, cfgs
